@@ -1,6 +1,6 @@
 from props import cfg
 
-CFG = cfg('C13', extract='Ex_C13', driver='c13',
+CFG = cfg('C13', refine=['Refine_fresh'], extract='Ex_C13', driver='c13',
           rule='os.urandom, X25519PrivateKey.generate and ec.generate_private_key interposed from the harness process; per operation the observed '
                '(purpose from the calling frames, size, position in the process-wide sequence of draws) is compared with the trace of the extracted '
                'model: 9 ciphers x {passphrase, RSA, ECDH Curve25519, ECDH NIST P-256 (+P-384, P-521, secp256k1 thorough)} x {drawn, supplied} '
